@@ -273,6 +273,120 @@ Proof.
   - rewrite !app_length. lia.
 Qed.
 
+(* ---------------------------------------------------------------- how many bits a block takes *)
+Lemma prog_bits_acc prog len : forall a, fold_left (fun a f => if present f len then a + f_w f else a) prog a
+                                         = a + prog_bits prog len.
+Proof.
+  unfold prog_bits. induction prog as [|f t IH]; intros a; cbn [fold_left]; [lia|].
+  rewrite IH. rewrite (IH (if present f len then 0 + f_w f else 0)). destruct (present f len); lia.
+Qed.
+
+Lemma dec_fields_pos p prog : forallb (fun f => negb (is_ue f)) prog = true ->
+  forall len r vs r', dec_fields p prog len r = Ok (vs, r') -> rpos r' = rpos r + prog_bits prog len.
+Proof.
+  induction prog as [|f t IH]; intros Hue len r vs r' H; cbn [dec_fields] in H.
+  - inversion H; subst. unfold prog_bits. cbn. lia.
+  - cbn [forallb] in Hue. apply andb_prop in Hue. destruct Hue as [Hf Ht].
+    destruct (dec_field p f len r) as [[v r1]| |s] eqn:E1; cbn [bind] in H; try discriminate.
+    destruct (dec_fields p t len r1) as [[vt r2]| |s] eqn:E2; cbn [bind] in H; try discriminate.
+    inversion H; subst. rewrite (IH Ht _ _ _ _ E2).
+    unfold prog_bits at 2. cbn [fold_left]. rewrite prog_bits_acc.
+    unfold dec_field in E1. unfold is_ue in Hf.
+    destruct (present f len).
+    + destruct (f_k f); try discriminate;
+        (destruct (get_n (f_tb f) (f_w f) r) as [[x rx]| |s] eqn:Eg; cbn [bind] in E1; try discriminate;
+         inversion E1; subst; apply get_n_inv in Eg; destruct Eg as (_ & hh & _ & _ & _ & Hp); rewrite Hp; lia).
+    + inversion E1; subst. lia.
+Qed.
+
+Lemma lengths_positive : forallb (fun d => forallb (fun lb => 1 <=? fst lb) (b_lengths d)) all_block_descs = true.
+Proof. vm_compute. reflexivity. Qed.
+
+Lemma required_bits_table d b req : In d all_block_descs -> required_bits d b = Ok req ->
+  req = prog_bits (b_parse d) (bytes_size d b) /\ req <= 8 * bytes_size d b /\ 1 <= bytes_size d b.
+Proof.
+  intros Hin Hr. pose proof (desc_compat _ Hin) as Hc. unfold desc_compatible in Hc.
+  repeat (apply andb_prop in Hc; destruct Hc as [Hc ?]).
+  match goal with Hx : forallb (fun lb => (prog_bits (b_parse d) (fst lb) =? snd lb) && _) (b_lengths d) = true |- _ => rename Hx into Hl end.
+  rewrite forallb_forall in Hl.
+  pose proof lengths_positive as Hp. rewrite forallb_forall in Hp. specialize (Hp d Hin). rewrite forallb_forall in Hp.
+  unfold required_bits, bytes_size in *. destruct (b_var_len d).
+  - destruct (find _ (b_lengths d)) as [[l bits]|] eqn:Ef; [|discriminate]. inversion Hr; subst bits.
+    apply find_some in Ef. destruct Ef as [Hi Heq]. apply N.eqb_eq in Heq. cbn in Heq. subst l.
+    specialize (Hl _ Hi). specialize (Hp _ Hi). cbn in Hl, Hp. apply andb_prop in Hl. destruct Hl as [A B].
+    apply N.eqb_eq in A. apply N.leb_le in B. apply N.leb_le in Hp. auto.
+  - destruct (b_lengths d) as [|[l bits] t]; [discriminate|]. inversion Hr; subst bits.
+    specialize (Hl (l, req) (or_introl eq_refl)). specialize (Hp (l, req) (or_introl eq_refl)). cbn in Hl, Hp.
+    apply andb_prop in Hl. destruct Hl as [A B].
+    apply N.eqb_eq in A. apply N.leb_le in B. apply N.leb_le in Hp. auto.
+Qed.
+
+Lemma get_ue_pos r v r' : get_ue Debug r = Ok (v, r') -> rpos r + 1 <= rpos r'.
+Proof.
+  intros H. apply get_ue_rt in H. destruct H as (bs & (_ & Hp) & Hw).
+  pose proof (Hw Debug wempty) as Hw1.
+  assert (1 <= List.length bs)%nat.
+  { destruct bs as [|x t]; [|cbn; lia]. exfalso. unfold write_ue in Hw1.
+    destruct (v =? 0); [cbn in Hw1; inversion Hw1|].
+    destruct (v + 1 =? two64); [discriminate|]. unfold write_n in Hw1.
+    destruct (64 <? _); [discriminate|]. destruct (_ && _); [discriminate|].
+    apply ok_inj in Hw1. rewrite wput_app in Hw1. apply (f_equal wbits) in Hw1. rewrite !wbits_wput in Hw1.
+    cbn [wempty wbits wrev frev rev_append app] in Hw1. rewrite <- app_assoc in Hw1. destruct (repeat false _); discriminate. }
+  lia.
+Qed.
+
+(* every extension block takes at least 17 bits: length code, level, at least one byte of payload *)
+Lemma parse_block_min_bits v r b r' : parse_block Debug v r = Ok (b, r') -> rpos r + 17 <= rpos r'.
+Proof.
+  unfold parse_block. intros H.
+  destruct (get_ue Debug r) as [[len r1]| |s] eqn:E1; cbn [bind] in H; try discriminate.
+  destruct (get_n 8 8 r1) as [[level r2]| |s] eqn:E2; cbn [bind] in H; try discriminate.
+  destruct (mem level (parse_levels v)); [|discriminate].
+  destruct (desc_of level) as [d|] eqn:Ed; [|discriminate].
+  destruct (desc_of_in _ _ Ed) as [Hin _]. pose proof (desc_compat _ Hin) as Hcomp.
+  unfold desc_compatible in Hcomp. repeat (apply andb_prop in Hcomp; destruct Hcomp as [Hcomp ?]).
+  assert (Hnue : forallb (fun f => negb (is_ue f)) (b_parse d) = true) by assumption.
+  destruct (dec_fields Debug (b_parse d) len r2) as [[vs r3]| |s] eqn:E3; cbn [bind] in H; try discriminate.
+  destruct (if is_l11 d then l11_post d vs else (vs, false)) as [vs' flag].
+  set (b0 := mkBlk level (if b_var_len d then len else bytes_size d (mkBlk level len vs' flag)) vs' flag) in *.
+  destruct (if g_block_len_checked_parse then ensure (vl_known level (blen b0)) else Ok tt) as [[]| |s]; cbn [bind] in H; try discriminate.
+  destruct (len =? bytes_size d b0) eqn:Elen; cbn [ensure bind] in H; [|discriminate]. apply N.eqb_eq in Elen.
+  destruct (mem level (allowed v)); cbn [ensure bind] in H; [|discriminate].
+  destruct (required_bits d b0) as [req| |s] eqn:Ereq; cbn [bind] in H; try discriminate.
+  destruct (read_zero_bits _ r3) as [r4| |s] eqn:Ez; cbn [bind] in H; try discriminate.
+  inversion H; subst r'. clear H.
+  pose proof (get_ue_pos _ _ _ E1) as P1.
+  apply get_n_inv in E2. destruct E2 as (_ & hh & _ & _ & _ & P2).
+  pose proof (dec_fields_pos _ _ Hnue _ _ _ _ E3) as P3.
+  apply read_zero_bits_rt in Ez. destruct Ez as [_ P4]. rewrite zeros_repeat, repeat_length in P4.
+  destruct (required_bits_table _ _ _ Hin Ereq) as (Hreq & Hle & Hpos).
+  rewrite <- Elen in Hreq. lia.
+Qed.
+
+Lemma parse_blocks_min_bits v fuel : forall n r bl r', parse_blocks Debug v fuel n r = Ok (bl, r') ->
+  rpos r + 17 * N.of_nat (List.length bl) <= rpos r'.
+Proof.
+  induction fuel as [|f IH]; intros n r bl r' H; cbn [parse_blocks] in H.
+  - destruct (n =? 0); [|discriminate]. inversion H; subst. cbn. lia.
+  - destruct (n =? 0); [inversion H; subst; cbn; lia|].
+    destruct (parse_block Debug v r) as [[b r1]| |s] eqn:Eb; cbn [bind] in H; try discriminate.
+    destruct (parse_blocks Debug v f (n - 1) r1) as [[t r2]| |s] eqn:Et; cbn [bind] in H; try discriminate.
+    inversion H; subst. pose proof (parse_block_min_bits _ _ _ _ Eb). pose proof (IH _ _ _ _ Et). cbn [List.length]. lia.
+Qed.
+
+Lemma parse_container_min_bits v r c r' : parse_container Debug v r = Ok (c, r') -> cblocks c <> [] ->
+  rpos r + 18 <= rpos r'.
+Proof.
+  unfold parse_container. intros H Hne.
+  destruct (get_ue Debug r) as [[num r1]| |s] eqn:E1; cbn [bind] in H; try discriminate.
+  destruct (if negb g_blocks_alloc_clamped && (1000000 <? num) then Panic site_alloc else Ok tt) as [[]| |s]; cbn [bind] in H; try discriminate.
+  destruct (align_zero 8 r1) as [r2| |s] eqn:E2; cbn [bind] in H; try discriminate.
+  destruct (parse_blocks Debug v _ num r2) as [[bl r3]| |s] eqn:E3; cbn [bind] in H; try discriminate.
+  inversion H; subst c r'. cbn [cblocks] in Hne.
+  pose proof (get_ue_pos _ _ _ E1). destruct (align_zero_rt _ _ _ E2) as [[_ P2] _].
+  pose proof (parse_blocks_min_bits _ _ _ _ _ _ E3). destruct bl; [congruence|]. cbn [List.length] in *. lia.
+Qed.
+
 (* ---------------------------------------------------------------- the DM payload *)
 Definition canon_container (c : container) : container := mkC (cnum c) (map canon_block (cblocks c)).
 
@@ -296,6 +410,7 @@ Theorem dm_write_sound p h d w w' :
   write_dm p d w = Ok w' -> dm_ok h d ->
   g_block_len_checked_parse = g_block_len_checked_write -> g_blocks_alloc_clamped = true ->
   exists bs29 bs40, w' = wput w (bs29 ++ bs40) /\
+    (match cmv40 d with Some c => cblocks c <> [] -> (18 <= List.length bs40)%nat | None => bs40 = [] end) /\
     forall rest pos, pos mod 8 = wpos w mod 8 ->
       (* what follows decides whether the parser looks for a CM v4.0 container *)
       (match cmv40 d with
@@ -351,6 +466,11 @@ Proof.
     - inversion H; subst w'. exists []. split; [symmetry; apply wput_nil|]. intros; reflexivity. }
   destruct H6 as (b6 & -> & Hr6).
   exists (b1 ++ b2 ++ b3 ++ b4 ++ b5), b6. split; [rewrite !wput_app, <- !app_assoc; reflexivity|].
+  split.
+  { specialize (Hr6 [] (wpos (wput (wput (wput (wput (wput w b1) b2) b3) b4) b5)) eq_refl).
+    destruct (cmv40 d) as [c40|]; [|exact Hr6]. intros Hne.
+    apply parse_container_min_bits in Hr6; [cbn [rpos] in Hr6; lia|].
+    cbn [canon_container cblocks]. destruct (cblocks c40); [congruence|discriminate]. }
   intros rest pos Hp Hrest. unfold parse_dm. rewrite <- !app_assoc.
   rewrite (Hr1 Debug). cbn [bind]. rewrite (Hr2 Debug). cbn [bind]. rewrite (Hr3 Debug). cbn [bind].
   rewrite <- Hcomp. rewrite Hr4. cbn [bind].
